@@ -146,6 +146,8 @@ def shard_exhaustive(ctx, arg):
             catch = zero
         check_graph(ctx, which, nodes, adj, catch, use_api=bool(h & 4), tag="exh%d" % n)
     ctx.count("exhaustive_graphs_n%d" % n, hi - lo)
+    if lo == 0 and n == 4:
+        ctx.sample({"exhaustive_n": 4, "code": 0x1234, "succ_masks": _unpack(0x1234, 4)})
 
 
 def gen_random(rng, n, family):
@@ -251,7 +253,7 @@ def shard_random(ctx, arg):
                     ctx.inconclusive("reference dominator algorithms disagree on %r" % (adj,))
                     continue
         check_graph(ctx, which, nodes, adj, catch, use_api=True, idom_ref=ref, tag=fam, sigextra=(n // 8,))
-        if ctx.shard == 0 and c < 2:
+        if idx == 0 and c < 3:
             ctx.sample({"family": fam, "n": n, "succ": {u: [v for v in range(n) if (adj[u] >> v) & 1] for u in range(min(n, 12))}, "catch_masks": catch[:12]})
     ctx.count("random_graphs", count)
 
